@@ -63,6 +63,8 @@ func main() {
 			fmt.Printf("violated %s at step %d: %s\n", v.Assert, v.Step, v.Msg)
 		}
 		fmt.Printf("steps %d classes %v\n", rep.Steps, sortedIntMap(rep.Classes))
+	case "race":
+		os.Exit(cmdRace(os.Args[2:]))
 	case "list":
 		for _, id := range sortedKeys(checkDefs()) {
 			fmt.Println(id)
@@ -520,6 +522,16 @@ func cmdCheck(id, tier string) int {
 		fmt.Printf("VIOLATION property=%s replay=%s\n", id, filepath.Join(verifDir, "known_findings.json"))
 		exit = 1
 	}
+	if id == "C19" && tier == "thorough" && exit == 0 {
+		if rv, note := raceRun(seed, sum); rv != "" {
+			fmt.Printf("violated C19.race: %s\n", note)
+			fmt.Printf("VIOLATION property=C19 replay=%s\n", rv)
+			exit = 1
+			nviol++
+		} else if note != "" {
+			inconclusive = append(inconclusive, note)
+		}
+	}
 	writeEvidence(id, tier, seed, def, sum, time.Since(start).Seconds(), nviol, missing, inconclusive)
 	if exit == 0 && (len(inconclusive) > 0 || len(missing) > 0) {
 		for _, s := range inconclusive {
@@ -697,4 +709,61 @@ func compareReplays(w *World, def *CheckDef, r *Runner, rep *Report) {
 		}
 		rep.Class("C19.replays-compared")
 	}
+}
+
+// raceRun builds the monitor with the race detector and runs histories concurrently in separate app
+// instances; returns a witness path when the detector reports a race with alliance frames or the
+// instances diverge, and an inconclusive note when the race build is unavailable.
+func raceRun(seed uint64, sum *Summary) (string, string) {
+	bin := filepath.Join(verifDir, "bin", "vmon-race")
+	build := exec.Command("go", "build", "-race", "-tags", "verif", "-o", bin, ".")
+	build.Dir = filepath.Join(verifDir, "vmon")
+	build.Env = append(os.Environ(), "GOFLAGS=-mod=mod", "GOPROXY=off", "GOSUMDB=off", "GOTOOLCHAIN=local", "CGO_ENABLED=1")
+	if out, err := build.CombinedOutput(); err != nil {
+		return "", fmt.Sprintf("race build failed: %v %.300s", err, out)
+	}
+	dir := filepath.Join(verifDir, "work", "race")
+	_ = os.RemoveAll(dir)
+	_ = os.MkdirAll(dir, 0o755)
+	outJSON := filepath.Join(dir, "race.json")
+	cmd := exec.Command(bin, "race", "8", "6", strconv.FormatUint(seed, 10), outJSON)
+	cmd.Env = append(os.Environ(), "GORACE=halt_on_error=0 log_path="+filepath.Join(dir, "race.log"))
+	out, err := cmd.CombinedOutput()
+	if err != nil {
+		return "", fmt.Sprintf("race run failed: %v %.300s", err, out)
+	}
+	var ro raceOut
+	b, _ := os.ReadFile(outJSON)
+	_ = json.Unmarshal(b, &ro)
+	logs, _ := filepath.Glob(filepath.Join(dir, "race.log*"))
+	reports, alliance := 0, 0
+	var sample string
+	for _, l := range logs {
+		lb, _ := os.ReadFile(l)
+		blocks := strings.Split(string(lb), "WARNING: DATA RACE")
+		for _, blk := range blocks[1:] {
+			reports++
+			if strings.Contains(blk, "terra-money/alliance/x/alliance") || strings.Contains(blk, "/repo/x/alliance") || strings.Contains(blk, "/repo/custom") {
+				alliance++
+				if sample == "" {
+					sample = blk
+				}
+			}
+		}
+	}
+	sum.Counts["race.instances"] = ro.Instances
+	sum.Counts["race.histories_per_instance"] = ro.Histories
+	sum.Counts["race.steps"] = ro.Steps
+	sum.Counts["race.reports_total"] = reports
+	sum.Counts["race.reports_with_alliance_frames"] = alliance
+	sum.Counts["race.digest_mismatches"] = len(ro.Mismatches)
+	sum.Evals["C19.race-detector"] += ro.Steps
+	sum.Classes["C19.race-run"]++
+	if alliance > 0 || len(ro.Mismatches) > 0 || len(ro.Panics) > 0 {
+		wit := filepath.Join(verifDir, "replays", "C19", "race-witness.txt")
+		_ = os.MkdirAll(filepath.Dir(wit), 0o755)
+		_ = os.WriteFile(wit, []byte(fmt.Sprintf("mismatches: %v\npanics: %v\nfirst race report with alliance frames:\n%s\n", ro.Mismatches, ro.Panics, sample)), 0o644)
+		return wit, fmt.Sprintf("%d race reports with alliance frames, %d digest mismatches between instances running the same histories, %d panics", alliance, len(ro.Mismatches), len(ro.Panics))
+	}
+	return "", ""
 }
